@@ -15,6 +15,7 @@
 //	        every record against PairAt) and write records lo..hi
 //	cases   read TLC-emitted pairs (D2, MC_DiffDomain) and write one record each
 //	random  D3: seeded random texts (duplicates, diff-syntax look-alikes, long files)
+//	consumer  the diff a failing cmp / cmpenv logs (testscript/cmd.go), cut out of the real failure log
 //	show    print the real diff and its events for one pair (replay of a finding)
 package main
 
@@ -283,7 +284,8 @@ func main() {
 	n := flag.Int("n", 4, "D1: max lines")
 	lo := flag.Int("lo", 1, "D1: first pair index")
 	hi := flag.Int("hi", 0, "D1: last pair index (0 = all)")
-	count := flag.Int("count", 1000, "random: number of pairs")
+	count := flag.Int("count", 1000, "random / consumer: number of pairs")
+	tmp := flag.String("tmp", "", "consumer: scratch directory")
 	flag.Parse()
 	if *out == "" {
 		vutil.Fatalf("-out required")
@@ -295,6 +297,8 @@ func main() {
 		modeCases(*cases, *trace)
 	case "random":
 		modeRandom(*count, *trace)
+	case "consumer":
+		modeConsumer(*count, *trace, *tmp)
 	case "show":
 		modeShow(*cases)
 	default:
